@@ -5,7 +5,10 @@ use crate::runner::{Env, Job};
 pub mod c01;
 pub mod c02;
 pub mod c03;
+pub mod c05;
+pub mod c06;
 pub mod c07;
+pub mod c09;
 pub mod c10;
 pub mod gcase;
 
@@ -15,7 +18,7 @@ pub struct Meta {
     pub assumptions: Vec<&'static str>,
 }
 
-const IDS: &[&str] = &["C01", "C02", "C03", "C07", "C10"];
+const IDS: &[&str] = &["C01", "C02", "C03", "C05", "C06", "C07", "C09", "C10"];
 
 pub fn all_ids() -> Vec<&'static str> {
     IDS.to_vec()
@@ -26,7 +29,10 @@ pub fn jobs(id: &str, env: &Env) -> Vec<Box<dyn Job>> {
         "C01" => c01::jobs(env),
         "C02" => c02::jobs(env),
         "C03" => c03::jobs(env),
+        "C05" => c05::jobs(env),
+        "C06" => c06::jobs(env),
         "C07" => c07::jobs(env),
+        "C09" => c09::jobs(env),
         "C10" => c10::jobs(env),
         _ => Vec::new(),
     }
@@ -43,7 +49,10 @@ pub fn meta(id: &str) -> Meta {
         "C01" => (c01::RULE, c01::TECHNIQUE),
         "C02" => (c02::RULE, c02::TECHNIQUE),
         "C03" => (c03::RULE, c03::TECHNIQUE),
+        "C05" => (c05::RULE, c05::TECHNIQUE),
+        "C06" => (c06::RULE, c06::TECHNIQUE),
         "C07" => (c07::RULE, c07::TECHNIQUE),
+        "C09" => (c09::RULE, c09::TECHNIQUE),
         "C10" => (c10::RULE, c10::TECHNIQUE),
         _ => ("", ""),
     };
